@@ -418,8 +418,8 @@ Proof. vm_compute. repeat split. Qed.
 (* a vehicle without start / end location: its first and last stops are not
    listed, yet the waiting total is still the sum of the waits *)
 Definition ex20_inp : input :=
-  mkInput [] [mkIStop [] 10 [(3600, 7200)] None 100 []]
-          [mkIVehicle None [] 0 None None None None None [] 0 false false]
+  mkInput [] [mkIStop [] 10 [(3600, 7200)] None 100 [] None 0 0]
+          [mkIVehicle None [] 0 None None None None None [] 0 false false 0 0]
           [mkIUnit [0%nat] []]
           [[0; 60; 60]; [60; 0; 60]; [60; 60; 0]] [[0; 60; 60]; [60; 0; 60]; [60; 60; 0]]
           0 ex2_opts [].
